@@ -615,6 +615,12 @@ fn spawn_async_ao_list_in_task'''),
         ('file-target-takes-the-first-of-several-words', 'brush-core/src/interp.rs', "                    if expanded_fields.len() != 1 {\n                        return Err(error::ErrorKind::InvalidRedirection.into());\n                    }\n\n                    let expanded_file_path: PathBuf =", "                    if expanded_fields.is_empty() {\n                        return Err(error::ErrorKind::InvalidRedirection.into());\n                    }\n\n                    let expanded_file_path: PathBuf ="),
         ('duplicate-target-check-dropped', 'brush-core/src/interp.rs', "                    if expanded_fields.len() != 1 {\n                        return Err(error::ErrorKind::InvalidRedirection.into());\n                    }\n\n                    let mut expanded = expanded_fields.remove(0);", "                    if expanded_fields.len() > 1 {\n                        return Err(error::ErrorKind::InvalidRedirection.into());\n                    }\n\n                    let mut expanded = expanded_fields.remove(0);"),
     ],
+    'U32': [
+        ('negation-and-leading-close-bracket-swapped', 'brush-parser/src/pattern.rs', '"[" invert:(invert_char()?) leading:leading_close_bracket()? rest:bracket_member()* "]" {?', '"[" leading:leading_close_bracket()? invert:(invert_char()?) rest:bracket_member()* "]" {?'),
+        ('leading-close-bracket-not-optional', 'brush-parser/src/pattern.rs', '"[" invert:(invert_char()?) leading:leading_close_bracket()? rest:bracket_member()* "]" {?', '"[" invert:(invert_char()?) leading:leading_close_bracket() rest:bracket_member()* "]" {?'),
+        ('caret-is-not-a-negation-marker', 'brush-parser/src/pattern.rs', "            ['!' | '^'] { true }", "            ['!'] { true }"),
+        ('leading-member-is-an-opening-bracket', 'brush-parser/src/pattern.rs', 'rule leading_close_bracket() -> String =\n            "]" { String::from(r"\\]") }', 'rule leading_close_bracket() -> String =\n            "[" { String::from(r"\\]") }'),
+    ],
     'U31': [
         ('not-equal-reads-nocaseglob', 'brush-core/src/extendedtests.rs', """                .set_case_insensitive(shell.options().case_insensitive_conditionals);
 
